@@ -103,3 +103,43 @@ func VerifC14Index() {
 		v.Assert("C14.ids-index", ok)
 	}
 }
+
+// VerifC14RangeLayout: a lexical entry is indexed with its range text verbatim whatever the
+// textual layout of the four numbers is (the policy reads them with a digit scan, so blanks,
+// missing brackets, leading zeros and trailing text all still carry a location).
+func VerifC14RangeLayout() {
+	layouts := []string{
+		"[(3,2)-(5,10)]", "[(3, 2)-(5, 10)]", "[(3,2) - (5,10)]", "(3,2)-(5,10)", "3,2-5,10",
+		"[(03,02)-(05,010)]", "[(3,2)-(5,10)] ", " [(3,2)-(5,10)]", "[(3,2)-(5,10)]#frag",
+		"[(123456,0)-(123457,99999)]", "[(0,0)-(0,0)]", "3 2 5 10",
+	}
+	text := layouts[v.Choice("layout", len(layouts))]
+	id := "http://x/n1"
+	nodes := []any{
+		verifObj("@id", id, "@type", "http://example.org/C"),
+		verifObj("@id", "http://x/lex0", smNS+"element", id, smNS+"value", text),
+	}
+	sm := verifObj("@id", "http://x/sm", "@type", smNS+"SourceMap")
+	if v.Choice("single", 2) == 0 {
+		sm[smNS+"lexical"] = verifObj("@id", "http://x/lex0")
+	} else {
+		sm[smNS+"lexical"] = []any{verifObj("@id", "http://x/lex0")}
+	}
+	nodes = append(nodes, sm)
+	hasInfo := v.Choice("sourceInfo", 2) == 1
+	if hasInfo {
+		nodes = append(nodes, verifObj("@id", "http://x/si", "@type", docNS+"BaseUnitSourceInformation", docNS+"rootLocation", "file://root"))
+	}
+	index := Index(verifObj("@graph", nodes)).(types.ObjectMap)
+	v.Reach("indexed")
+	entry, has := index["@lexical"].(types.ObjectMap)[id].(types.ObjectMap)
+	v.Assert("C14.layout-entry-present", has)
+	if has {
+		v.Assert("C14.layout-range-verbatim", entry["range"] == text)
+		want := ""
+		if hasInfo {
+			want = "file://root"
+		}
+		v.Assert("C14.layout-uri", entry["uri"] == want)
+	}
+}
